@@ -7,6 +7,7 @@ CONSTANTS
   MaxOps = 4
   Stable = TRUE
   OpKinds = {"append","delete","update","upsert","compact","overwrite","restore","checkout"}
+  MaxBatch = 1
   Deviations = {}
 VIEW view
 INVARIANTS TypeOK SerialEquivalence NoDoubleImage WellFormed RowIdUnique RowIdsNeverReused VersionColumnsCorrect RestoreEqualsOld RewritePreservesContents
